@@ -505,11 +505,51 @@ fn mixed_layout_zip_map(st: &mut Stream, rng: &mut Rng) {
     pair!("(f64, [f64; 6])", f64, [f64; 6], |v: i64, _i: usize| v as f64 / 4.0, |v: i64, i: usize| [v as f64, i as f64, 0.5, 1.0, 2.0, 4.0], |x: f64, y: [f64; 6]| x + y[0] + y[5]);
 }
 
+/// The ADDRESS of the caller's storage is not part of the contract: destination and source slices that start 1, 2, 3
+/// frames into a larger allocation (so that they sit at every alignment the frame type allows), lengths around 64, 128
+/// and 200 frames — every in-place operation against the element-wise result; the frames in front of the sub-slice
+/// must stay untouched (oracle only)
+fn fadd<F: Frame>(x: F, y: F) -> F { Frame::add_amp(x, Frame::to_signed_frame(y)) }
+fn fgain<F: Frame>(y: F, g: F::Float) -> F { Frame::mul_amp(y, g) }
+fn offset_slices(st: &mut Stream, rng: &mut Rng) {
+    macro_rules! ty { ($name:expr, $F:ty, $mk:expr, $gain:expr) => {
+        for off_a in 0..4usize { for off_b in [0usize, 1, 3] { for len in [63usize, 64, 65, 67, 128, 130, 201] {
+            let av: Vec<$F> = (0..len + off_a).map(|i| ($mk)(rng.range(-40, 40), i)).collect();
+            let bv: Vec<$F> = (0..len + off_b).map(|i| ($mk)(rng.range(-8, 8), i)).collect();
+            for name in ["equilibrium", "map", "zipmap", "write", "add", "addamp"] {
+                let mut a = av.clone();
+                let case = format!("{} frames of {} at offset {} of their allocation (source at offset {}): {}", len, $name, off_a, off_b, name);
+                mark(0, &case);
+                let r = guarded(|| { let (d, s_) = (&mut a[off_a..], &bv[off_b..]); match name {
+                    "equilibrium" => dasp_slice::equilibrium(d),
+                    "map" => dasp_slice::map_in_place(d, |f: $F| fadd(f, ($mk)(1, 0))),
+                    "zipmap" => dasp_slice::zip_map_in_place(d, s_, |x: $F, y: $F| fadd(fadd(x, y), y)),
+                    "write" => dasp_slice::write(d, s_),
+                    "add" => dasp_slice::add_in_place(d, s_),
+                    _ => dasp_slice::add_in_place_with_amp_per_channel(d, s_, $gain),
+                } });
+                let want: Vec<$F> = (0..len).map(|i| { let (x, y) = (av[off_a + i], bv[off_b + i]); match name {
+                    "equilibrium" => <$F as Frame>::EQUILIBRIUM, "map" => fadd(x, ($mk)(1, 0)), "zipmap" => fadd(fadd(x, y), y),
+                    "write" => y, "add" => fadd(x, y), _ => fadd(x, fgain(y, $gain)) } }).collect();
+                st.count("in_place_ops_on_offset_sub_slices");
+                if r.is_some() && a[off_a..] == want[..] && a[..off_a] == av[..off_a] { st.oracle_ok(len as u64); }
+                else { let k = (0..len).find(|&i| a[off_a + i] != want[i]);
+                    st.oracle_fail("in-place slice operation on a sub-slice that starts inside a larger allocation differs from the element-wise frame operation", &case, &format!("first difference expected at none"), &format!("{} first differing frame {:?}: got {:?}, expected {:?}", if r.is_some() { "returned" } else { "panicked" }, k, k.map(|i| a[off_a + i]), k.map(|i| want[i]))); }
+            }
+        } } }
+    } }
+    ty!("i16 (mono)", i16, |v: i64, _i: usize| v as i16, 2.0f32);
+    ty!("[f32; 2]", [f32; 2], |v: i64, i: usize| [v as f32 / 8.0, (i % 7) as f32 / 4.0], [0.5f32, 2.0]);
+    ty!("[i32; 3]", [i32; 3], |v: i64, i: usize| [v as i32 * 1000, (i % 16) as i32 - 8, 7], [1.0f32, 0.0, 2.0]);
+    ty!("[i64; 1]", [i64; 1], |v: i64, i: usize| [v * 1_000_003 + i as i64], [1.0f64]);
+}
+
 fn run_ops(a: &Args) {
     let mut st = Stream::new(&a.out, "ops");
     let mut rng = Rng::new(a.seed, "ops");
     user_frame_ops(&mut st, &mut rng);
     mixed_layout_zip_map(&mut st, &mut rng);
+    offset_slices(&mut st, &mut rng);
     let ns: Vec<usize> = if a.thorough() { (1..=32).collect() } else { vec![1, 2, 3, 4, 8, 32] };
     const OPS: [&str; 6] = ["equilibrium", "map", "zipmap", "write", "add", "addamp"];
     for fmt in FMTS { for &n in ns.iter() { for name in OPS {
